@@ -59,12 +59,38 @@ def classes():
     return _CACHE["c"]
 
 
+def indep_doy(dates):
+    """day of year computed independently of ibicus (datetime), for python date objects"""
+    return np.array([d.timetuple().tm_yday for d in dates], dtype=int)
+
+
+def check_calendar(dates, problems, what="calendar"):
+    """the library's day_of_year / month / year must agree with the calendar (the model receives these integer codes)"""
+    from ibicus.utils import day_of_year, month, year
+
+    if len(dates) == 0:
+        return
+    with warnings.catch_warnings():
+        warnings.simplefilter("ignore")
+        got = (np.asarray(day_of_year(dates)), np.asarray(month(dates)), np.asarray(year(dates)))
+    want = (indep_doy(dates), np.array([d.month for d in dates]), np.array([d.year for d in dates]))
+    for name, g, w in zip(("day_of_year", "month", "year"), got, want):
+        if g.shape != w.shape or (g != w).any():
+            k = int(np.where(g != w)[0][0]) if g.shape == w.shape else 0
+            problems.append((f"ibicus.utils.{name} disagrees with the calendar: {dates[k]} -> {g[k] if g.shape == w.shape else g.shape} (calendar: {w[k]})",
+                             {"what": what + "/" + name, "date": str(dates[k]), "first": str(dates[0]), "n": int(len(dates))}))
+            return
+
+
+CENTURY_YEARS = (1900, 2100)
+
+
 def dates_from(start, n):
     return np.array([start + datetime.timedelta(days=k) for k in range(n)], dtype=object)
 
 
 def small_span(rng, maxn):
-    year = rng.randint(1960, 2080)
+    year = rng.randint(1960, 2080) if rng.random() > 0.12 else rng.choice(CENTURY_YEARS) - rng.choice([0, 0, 1])
     start = datetime.date(year, 1, 1) + datetime.timedelta(days=rng.randint(0, 365))
     n = rng.choice([rng.randint(1, 30), rng.randint(31, 200), rng.randint(201, maxn)])
     return dates_from(start, n)
